@@ -50,6 +50,23 @@ def attempts (f : Bool → Cache → Cache × Outcome) (up : Bool) : Nat → Cac
   | 0, c => (c, [])
   | n + 1, c => let (c', o) := f up c; let (c'', os) := attempts f up n c'; (c'', o :: os)
 
+/-- the cached handle of the shared connection together with the tunnels relaying over that connection (each tunnel
+    holds its own handle: dropping the cached handle does not close the connection under them) -/
+structure Shared where
+  cache : Cache
+  tunnels : Nat
+  deriving Repr, DecidableEq
+
+/-- a request whose ORIGIN is silent while the upstream and the shared connection are fine: the CONNECT exchange runs
+    into its bound, the failure is attributed to the shared connection and the cached handle is cleared.
+    `closeOnClear = false` is the code (the handle is dropped); `true` is the variant that closes the connection. -/
+def silentOrigin (closeOnClear : Bool) (s : Shared) : Shared × Outcome :=
+  match s.cache with
+  | some .live => ({ cache := none, tunnels := if closeOnClear then 0 else s.tunnels }, .timedOut)
+  | none => ({ cache := none, tunnels := s.tunnels }, .timedOut)     -- dials (upstream up), then times out the same way
+  | some .deadKnown => ({ cache := none, tunnels := s.tunnels }, .failFast)
+  | some .deadUnknown => ({ cache := none, tunnels := s.tunnels }, .timedOut)
+
 /-- a stateless connector: the outcome of a request depends only on the upstream's state when it is made -/
 def statelessAttempt (upstreamUp : Bool) : Outcome := if upstreamUp then .ok else .failFast
 
